@@ -125,6 +125,7 @@ def run(ctx):
     # builders emit spends in the reverse of bundle order: the cross-spend ephemeral rule must not depend on positions
     from . import c01_effects
     c01_effects.is_ephemeral_exact(ctx, "C08.1")
+    c08_flags(ctx)
 
 
 def c08_dialect(ctx):
@@ -333,3 +334,35 @@ def c08_3(ctx):
         s = " ".join(map(str, r))
         ctx.ob(R, "base-cost", "calculate_generator_length" in s and "SubWithOverflow" in s and "cost_per_byte" in s and "interned_vbytes" in s,
                "base cost = (predicted length - QUOTE_BYTES) * cost_per_byte, or interned vbytes * cost_per_byte", found=s[:300])
+
+
+def c08_flags(ctx):
+    """the mempool entry points run the bundle under the flags of the block that would include it: fork flags are those
+    get_flags_for_height_and_constants derives from the caller's prev_tx_height *unmodified* (the same call block validation
+    makes), with only mempool strictness (MEMPOOL_MODE) and DONT_VALIDATE_SIGNATURE added; validate_clvm_and_signature passes
+    the caller's flags through untouched.  An adjusted height shifts every fork activation by one block."""
+    R = "C08.1"
+    fb = ctx.fb
+    f = _fn(fb, CC + "spendbundle_conditions::get_conditions_from_spendbundle")
+    if not f:
+        return ctx.missing(R, "mempool-flags", "get_conditions_from_spendbundle not found")
+    b = Body(f, fb)
+    ctx.touched(b.path)
+    rs = [t for bi, n, t in b.calls() if n.startswith(CC + "spendbundle_conditions::run_spendbundle")]
+    ok = len(rs) == 1
+    got = None
+    if ok:
+        got = str(apnf.N(strip_all(b.operand_term(rs[0]["args"][3]))))
+        base = "('get_flags_for_height_and_constants', 'prev_tx_height', 'constants')"
+        m = "'chia_consensus::flags::MEMPOOL_MODE'"
+        d = "'chia_consensus::flags::ConsensusFlags::DONT_VALIDATE_SIGNATURE'"
+        ok = got in ("('bitor', ('bitor', %s, %s), %s)" % (base, m, d), "('bitor', ('bitor', %s, %s), %s)" % (base, d, m))
+    ctx.ob(R, "mempool-flags:get_conditions_from_spendbundle", ok,
+           "flags = get_flags_for_height_and_constants(prev_tx_height, constants) | MEMPOOL_MODE | DONT_VALIDATE_SIGNATURE", found=got, where=f.sp)
+    f = _fn(fb, CC + "spendbundle_validation::validate_clvm_and_signature")
+    if f:
+        b = Body(f, fb)
+        ctx.touched(b.path)
+        rs = [t for bi, n, t in b.calls() if n.startswith(CC + "spendbundle_conditions::run_spendbundle")]
+        got = [str(apnf.N(strip_all(b.operand_term(t["args"][3])))) for t in rs]
+        ctx.ob(R, "mempool-flags:validate_clvm_and_signature", got == ["flags"], "validate_clvm_and_signature runs the bundle under the caller's flags, unmodified", found=got)
